@@ -262,7 +262,71 @@ def check_threads(case):
     return sc.switches > 0, ["threads", "switches=%d" % min(sc.switches, 3)]
 
 
+# ---- one ring, two threads --------------------------------------------------------------------------------------------
+
+RING_NODES = ["10.0.0.1:11211", "10.0.0.2:11211", "10.0.0.3:11211", "cache-a:11211"]
+RING_KEYS = [("alpha", "beta"), ("user:0", "user:1"), ("k", "k" * 40), ("beta", "beta"), ("7", "seven")]
+
+
+def _ring_steps(funcs, preempt, first=0):
+    from vlib import sched
+    import pymemcache.client.rendezvous as RZ
+    fn = RZ.__file__
+    sc = sched.Scheduler(sched.preemption_chooser(preempt), lambda code: code.co_filename == fn, max_steps=200000)
+    sc.run(funcs, first=first)
+    return sc
+
+
+def ring_thread_cases(tier, seed):
+    """two threads look different keys up in ONE RendezvousHash (what a HashClient shared by threads does); the first is
+    pre-empted once (thorough: also twice) at every bytecode of the ring's own code"""
+    from pymemcache.client.rendezvous import RendezvousHash
+    for ki, (a, b) in enumerate(RING_KEYS):
+        for nn in (2, 4):
+            r = RendezvousHash(RING_NODES[:nn])
+            total = _ring_steps([lambda: (r.get_node(a), r.get_node(a)), lambda: None], []).steps
+            for p in range(1, total + 1):
+                yield {"nodes": nn, "a": a, "b": b, "preempt": [p], "first": 0}
+                if (p + ki) % 4 == 0:
+                    yield {"nodes": nn, "a": a, "b": b, "preempt": [p], "first": 1}
+            if tier == "thorough" or nn == 2:
+                for p in range(1, total + 1, 2 if tier == "thorough" else 5):
+                    for q in range(p + 3, p + 3 * total, 7 if tier == "thorough" else 19):
+                        yield {"nodes": nn, "a": a, "b": b, "preempt": [p, q], "first": 0}
+
+
+def check_ring_threads(case):
+    from pymemcache.client.rendezvous import RendezvousHash
+    nodes = RING_NODES[:case["nodes"]]
+    r = RendezvousHash(list(nodes))
+    a, b = case["a"], case["b"]
+    out = {}
+
+    def ta():
+        out["a"] = r.get_node(a)
+        out["a2"] = r.get_node(a)
+
+    def tb():
+        out["b"] = r.get_node(b)
+        out["b2"] = r.get_node(a)
+    sc = _ring_steps([ta, tb], case["preempt"], first=case.get("first", 0))
+    desc = "two threads on one RendezvousHash over %r: thread 0 looks up %r twice, thread 1 %r and %r; pre-emption at bytecode step(s) %r of the ring's code (thread %d starts)" % (
+        nodes, a, b, a, case["preempt"], case.get("first", 0))
+    if sc.errors:
+        raise Violation(["ring-threads", "raises", type(list(sc.errors.values())[0]).__name__], "get_node raised %r: %s" % (sc.errors, desc))
+    if sc.deadlock or sc.overrun:
+        raise Violation(["ring-threads", "stuck"], "the lookups did not finish: %s" % desc)
+    for name, key in (("a", a), ("a2", a), ("b", b), ("b2", a)):
+        want = refhash.place(nodes, key)
+        if out.get(name) != want:
+            raise Violation(["ring-threads", "differs-from-reference"], "get_node(%r) = %r, the rendezvous rule gives %r: %s" % (key, out.get(name), want, desc))
+    if r.nodes != nodes:
+        raise Violation(["ring-threads", "nodes-changed"], "the lookups changed the ring's node list to %r: %s" % (r.nodes, desc))
+    return sc.switches > 0, ["ring-threads", "switches=%d" % min(sc.switches, 3)]
+
+
 PARTS = [
+    Part("one-ring-two-threads", "enum", check_ring_threads, cases=ring_thread_cases, exhaustive=True),
     Part("str-subclasses", "enum", check_subclass, cases=subclass_cases, shards={"quick": 1, "thorough": 1}, exhaustive=True),
     Part("ring-hash-function", "enum", check_ring_hash, cases=ring_hash_cases, shards={"quick": 1, "thorough": 1}, exhaustive=True),
     Part("two-threads", "enum", check_threads, cases=thread_cases, exhaustive=True),
